@@ -76,6 +76,7 @@ package crlrepository
 //@   assigns L.held, Repository.crlRepository, M.map[string]*crlrepository.Entry, X.fs, X.ldbhas
 //@   ensures sameLocks()
 //@   ensures r2 == nil ==> entryShell(r0)
+//@   ensures chains_untouched: old(chains != nil && chainsOK(chains)) ==> chainsOK(chains)
 
 //@ func Repository.addNewEmptyEntry
 //@   props C12 C13 C16
@@ -137,12 +138,14 @@ package crlrepository
 //@   ensures[C16] lenient_modes_accept: called(CRLReader.ReadCRL#1) && res(CRLReader.ReadCRL#1, 1) == nil && sigMode(R) != config.SignatureValidationModeVerify && !(called(CRLPersisterProcessor.UpdateSignatureCertificate#1) && res(CRLPersisterProcessor.UpdateSignatureCertificate#1) != nil) ==> err == nil && entry.Loaded
 //@   ensures[C16] success_means_loaded: err == nil ==> entry.Loaded
 //@   ensures[C11] rejected_crl_leaves_no_entries: err != nil ==> (forall k string :: storeHas(entry.CRLStore, k) == old(storeHas(entry.CRLStore, k)))
+//@   ensures chains_untouched: old(chains != nil && chainsOK(chains)) ==> chainsOK(chains)
 
 //@ func Repository.loadActively
 //@   props C10 C13 C16
 //@   requires repoOK(R) && entryShell(entry) && unheld(entry.entryLock) && chains != nil && chainsOK(chains) && crlLocations != nil
 //@   assigns L.held, crlrepository.Entry.CRLStore, crlrepository.Entry.Loaded, crlrepository.Entry.LastUpdateSignatureVerifyFailed, crlrepository.Entry.LastUpdateSignature, crlrepository.Entry.Chains, M.map[string][]uint8, X.ldbhas, X.fs, X.net, X.retry, X.stream, X.spos, X.hacc, X.hkind, E.uint8, E.any, fresh:E.*core.CertificateChainEntry, H.crlloader.MultiSchemesCRLLoader, H.crlloader.URLLoader, H.crlloader.FileLoader
 //@   ensures sameLocks()
+//@   ensures chains_untouched: old(chains != nil && chainsOK(chains)) ==> chainsOK(chains)
 
 //@ func Repository.updateCrlEntry
 //@   props C04 C08 C12 C13 C15 C16 C20
@@ -152,6 +155,7 @@ package crlrepository
 //@   ensures[C16] refresh_follows_policy: called(CRLReader.ReadCRL#1) && res(CRLReader.ReadCRL#1, 1) == nil && sigMode(R) != config.SignatureValidationModeVerify && called(verifyCRLSignature#1) && res(verifyCRLSignature#1, 1) != nil ==> err == nil
 //@   ensures[C04,C08,C16] no_swap_without_verification: called(Repository.updateEntry#1) ==> called(verifyCRLSignature#1) && res(verifyCRLSignature#1, 1) == nil
 //@   ensures[C08,C15] failed_refresh_keeps_entry: err != nil ==> !called(Repository.deleteEntrySync#1)
+//@   ensures chains_untouched: old(newChains != nil && chainsOK(newChains)) ==> chainsOK(newChains)
 
 //@ func Repository.updateCRL
 //@   props C13 C15 C08
@@ -169,12 +173,14 @@ package crlrepository
 //@   requires repoOK(R) && norwlocks() && crlLocations != nil
 //@   requires chains != nil ==> chainsOK(chains)
 //@   assigns L.held, crlrepository.Entry.CRLStore, crlrepository.Entry.Loaded, crlrepository.Entry.LastUpdateSignatureVerifyFailed, crlrepository.Entry.LastUpdateSignature, crlrepository.Entry.Chains, H.crlrepository.Repository.crlRepository, M.map[string]*crlrepository.Entry, crlstore.MapStore.Map, M.map[string][]uint8, crlstore.LevelDbStore.Db, H.crlloader.MultiSchemesCRLLoader, H.crlloader.URLLoader, H.crlloader.FileLoader, X.ldbhas, X.fs, X.net, X.retry, X.stream, X.spos, X.hacc, X.hkind, E.uint8, E.any, E.string, fresh:E.*core.CertificateChainEntry, fresh:E.core.CertificateChain, fresh:E.core.CertificateChainEntry
+//@   ensures chains_untouched: old(chains != nil && chainsOK(chains)) ==> chainsOK(chains)
 
 //@ func Repository.AddCRL
 //@   props C10 C13 C16
 //@   requires repoOK(R) && norwlocks() && crlLocations != nil && chains != nil && chainsOK(chains)
 //@   assigns L.held, crlrepository.Entry.CRLStore, crlrepository.Entry.Loaded, crlrepository.Entry.LastUpdateSignatureVerifyFailed, crlrepository.Entry.LastUpdateSignature, crlrepository.Entry.Chains, H.crlrepository.Repository.crlRepository, M.map[string]*crlrepository.Entry, crlstore.MapStore.Map, M.map[string][]uint8, crlstore.LevelDbStore.Db, H.crlloader.MultiSchemesCRLLoader, H.crlloader.URLLoader, H.crlloader.FileLoader, X.ldbhas, X.fs, X.net, X.retry, X.stream, X.spos, X.hacc, X.hkind, E.uint8, E.any, E.string, fresh:E.*core.CertificateChainEntry, fresh:E.core.CertificateChain, fresh:E.core.CertificateChainEntry
 //@   ensures norwlocks()
+//@   ensures chains_untouched: old(chains != nil && chainsOK(chains)) ==> chainsOK(chains)
 
 //@ func Repository.tryUpdateSignatureCertFromChain
 //@   props C13
@@ -182,6 +188,7 @@ package crlrepository
 //@   requires[C13] entry_lock_not_held: unheld(entry.entryLock)
 //@   assigns L.held, crlrepository.Entry.CRLStore, crlrepository.Entry.Loaded, crlrepository.Entry.LastUpdateSignatureVerifyFailed, crlrepository.Entry.LastUpdateSignature, crlrepository.Entry.Chains, M.map[string][]uint8, X.ldbhas, X.fs, E.uint8, X.stream, X.spos, fresh:E.*core.CertificateChainEntry
 //@   ensures sameLocks()
+//@   ensures chains_untouched: old(chains != nil && chainsOK(chains)) ==> chainsOK(chains)
 
 // ---- lookup (C01 C09 C10 C11)
 
